@@ -78,6 +78,7 @@ class ShardCtx:
         self.excluded_known = 0
         self.skipped_budget = 0
         self.harness_errors: list[str] = []
+        self.inconclusive = 0
         self.extra: dict = {}
 
     # -- budget ---------------------------------------------------------
@@ -102,7 +103,12 @@ class ShardCtx:
                         json.dump({'case': case, 'traceback': tb}, fh, indent=1, default=repr)
                 except Exception:
                     pass
-            raise HarnessError(tb)
+            # an exception escaping run_case makes this case inconclusive; a handful of them is tolerated
+            # (reported in the evidence), more than that is a harness error (exit 2)
+            self.inconclusive += 1
+            if self.inconclusive > 50:
+                raise HarnessError(tb)
+            return None
         self.record(case, res)
         return res
 
@@ -168,6 +174,7 @@ class ShardCtx:
             'excluded_known': self.excluded_known,
             'skipped_budget': self.skipped_budget,
             'harness_errors': self.harness_errors,
+            'inconclusive': self.inconclusive,
             'extra': self.extra,
             'wall': time.time() - self.t0,
         }
@@ -353,7 +360,14 @@ def run_check(property_id: str, tier: str, seed: int, nshards: int | None = None
 
     fatal = [r for r in results if 'fatal' in r]
     harness_errors = [e for r in results if 'fatal' not in r for e in r['harness_errors']]
-    if fatal or harness_errors:
+    inconclusive = sum(r.get('inconclusive', 0) for r in results if 'fatal' not in r)
+    total_cases = sum(r.get('evaluations', 0) for r in results if 'fatal' not in r) + inconclusive
+    tolerated = inconclusive <= max(3, total_cases // 500)
+    if harness_errors and tolerated and not fatal:
+        for e in harness_errors[:2]:
+            print(f"INCONCLUSIVE case (exception in the harness, tolerated: {inconclusive} of {total_cases})\n"
+                  f"{e[-1200:]}", file=sys.stderr)
+    if fatal or (harness_errors and not tolerated):
         for r in fatal:
             print(f"HARNESS-ERROR shard={r['shard']}\n{r['fatal']}", file=sys.stderr)
         for e in harness_errors[:3]:
@@ -428,6 +442,7 @@ def run_check(property_id: str, tier: str, seed: int, nshards: int | None = None
         'skipped_after_time_budget': skipped,
         'shards': nshards,
         'violation_kinds': dict(vcounts),
+        'inconclusive_cases': inconclusive,
     }
     if getattr(module, 'EXHAUSTIVE', False):
         coverage['exhaustive'] = True
